@@ -230,7 +230,15 @@ def build_phase(node, ctx, htf, diag_enum, diagnoses_lib, plugs=None):
       return 1
     monitor_fn.__name__ = 'monitor_p%d' % pid
     body = monitors.monitors('mon_p%d' % pid, monitor_fn, poll_interval_ms=5)(body)
-  phase = htf.PhaseOptions(**kw)(body)
+  if pid % 2 == 1:
+    # the same options given as a stack of decorators, one option per layer and an empty one on top: what a lower
+    # layer set must survive the layers above it
+    phase = body
+    for key in sorted(kw, key=lambda k: (k in ('timeout_s', 'run_if', 'name'), k)):
+      phase = htf.PhaseOptions(**{key: kw[key]})(phase)
+    phase = htf.PhaseOptions()(phase)
+  else:
+    phase = htf.PhaseOptions(**kw)(body)
   ms = []
   for i, kind in enumerate(kinds):
     name = 'm%d_%d' % (pid, i)
